@@ -109,3 +109,25 @@ def bdio_project(lang: T.Optional[str] = None, only: T.Optional[T.Sequence[T.Tup
     files['meson.build'] = '\n'.join(head + ['bd = meson.current_build_dir()'] + top + ["subdir('sub')"] + tail) + '\n'
     files['sub/meson.build'] = '\n'.join(['bd = meson.current_build_dir()'] + sub) + '\n'
     return files, owned_top + ['sub/' + p for p in owned_sub]
+
+
+# A language-less project whose lookups go through wrap files whose `directory =` differs from the wrap name, by wrap name and by
+# directory name, with fallback allowed: what is found must not depend on the order in which subprojects/ is listed.
+WRAPS_PROJECT = {
+    'meson.build': """project('wraps', meson_version: '>=1.0')
+cd = configuration_data()
+foreach n : ['wfoo', 'wfoo-1.0', 'wbar-2', 'wbar', 'zz-3', 'zz', 'aa', 'aa-0', 'nothere']
+  d = dependency(n, required: false, allow_fallback: true)
+  cd.set('HAVE_' + n.underscorify(), d.found())
+endforeach
+configure_file(output: 'have.h', configuration: cd)
+""",
+    'subprojects/wfoo.wrap': "[wrap-file]\ndirectory = wfoo-1.0\n\n[provide]\nwfoo = wfoo_dep\n",
+    'subprojects/wbar.wrap': "[wrap-file]\ndirectory = wbar-2\n\n[provide]\nwbar = wbar_dep\n",
+    'subprojects/zz.wrap': "[wrap-file]\ndirectory = zz-3\n\n[provide]\nzz = zz_dep\n",
+    'subprojects/aa.wrap': "[wrap-file]\ndirectory = aa-0\n\n[provide]\naa = aa_dep\n",
+    'subprojects/wfoo-1.0/meson.build': "project('wfoo', version: '1.0')\nwfoo_dep = declare_dependency()\n",
+    'subprojects/wbar-2/meson.build': "project('wbar', version: '2')\nwbar_dep = declare_dependency()\n",
+    'subprojects/zz-3/meson.build': "project('zz', version: '3')\nzz_dep = declare_dependency()\n",
+    'subprojects/aa-0/meson.build': "project('aa', version: '0')\naa_dep = declare_dependency()\n",
+}
